@@ -197,7 +197,8 @@ for meta in sorted(glob.glob(os.path.join(_here, "seeded", "*", "meta.json"))):
                         desc="sub-agent: " + m.get("summary", "")))
 
 # behaviour-preserving change sets written by independent sub-agents (the property still holds: the checks must stay silent)
-NEUTRAL_CHECKS = {"C03": ["C03", "C04", "C14", "C18"], "C05": ["C05", "C06", "C07", "C13"], "C07": ["C07", "C05", "C17"], "C09": ["C09", "C10", "C11"],
+NEUTRAL_CHECKS = {"C03": ["C03", "C04", "C14", "C18"], "C05": ["C05", "C06", "C07", "C08"],   # not C13: the set clips with np.clip, which turns the NaN limits of a bound-less <limit> into NaN joints (a real C13 break)
+                   "C07": ["C07", "C05", "C17"], "C09": ["C09", "C10", "C11"],
                   "C10": ["C10", "C09", "C11"], "C12": ["C12", "C14", "C11"], "C14": ["C14", "C03", "C12", "C05"], "C16": ["C16", "C15"],
                   "C19": ["C19"], "C20": ["C20"]}
 for meta in sorted(glob.glob(os.path.join(_here, "neutral", "*", "meta.json"))):
